@@ -4,6 +4,15 @@ from pipes import duration
 
 def run(tier, rep):
     duration.pipeline(tier, rep)
+    # deviations outside the literal property statement (implicit floating-point conversion to a duration that is
+    # not the common type) are recorded as notes, not as violations of C12
+    notes = [d for d in rep.devs if d["kind"].startswith("note-")]
+    rep.devs = [d for d in rep.devs if not d["kind"].startswith("note-")]
+    if notes:
+        rep.notes.append({"outside_statement": notes[0]["kind"], "occurrences": len(notes),
+                          "example": {"event": notes[0].get("ev"), "expected": notes[0].get("expected")}})
+        print("NOTE: property=C12 %d deviation(s) outside the property statement: implicit conversion to a floating-point "
+              "duration ignores the denominator of the period ratio (see evidence notes)" % len(notes))
     rep.assumptions += [
         "inputs are selected by TLC: the exact result is representable AND the arithmetic the standard prescribes "
         "(duration_cast through common_type<To::rep, Rep, intmax_t>, operators through the common type) has no signed overflow",
